@@ -52,7 +52,7 @@ func init() {
 				Run:  func(c *Ctx) { hHashTreeHead(c); hEdgeReader(c) }},
 			{ID: "C01.k", Title: "LOCK-CAS", Template: "T5+T8", MinInst: 10,
 				Rule: "every lock backend's Replace/Create carries its precondition and never turns a failed conditional write into success (as C05.b, C05.g): the history in the lock store can only be extended by the holder of the current checkpoint",
-				Run:  func(c *Ctx) { c05b(c); c05g(c) }},
+				Run:  func(c *Ctx) { c05b(c); c05g(c); c05d(c) }},
 			{ID: "C01.j", Title: "LOADED-STATE", Template: "T6", MinInst: 3,
 				Rule: "the tree, tree-head time and edge tiles a loaded Log starts from are the lock checkpoint's (as C08.a): the next round's time guard compares against the lock store's last time",
 				Run:  c08a},
